@@ -121,12 +121,19 @@ def variants(path, per_seed=3):
     bytes), the object is composed, and the bytes are kept when the class's own parser accepts them whole.
     Deterministic (seeded by class path and seed index).  Computed in a forked child: editing objects may touch
     shared default objects (a known defect of the library), which must not leak into the simulator process."""
+    if _NO_NESTED_VARIANTS:
+        return []       # inside the child that derives variants: item pools are built from committed seeds only
     if path not in _VARIANTS:
         _VARIANTS[path] = core.call_isolated(_compute_variants, path, per_seed) if objects(path) else []
     return _VARIANTS[path]
 
 
+_NO_NESTED_VARIANTS = False
+
+
 def _compute_variants(path, per_seed):
+    global _NO_NESTED_VARIANTS  # pylint: disable=global-statement
+    _NO_NESTED_VARIANTS = True
     import hashlib
     import random
     from simverif.props import c13
